@@ -10,8 +10,9 @@ What is modelled (read from the fork sources, see `spec/C09.json`):
   inside the action unwinds through `ExecuteNativeAction`: neither restore nor journal entry; `Transfer` (value of a CALL)
   is itself a native action; `Context()` hands out the ctx over the SAME native store without any journaling; `Commit` =
   native store first, then the dirty EVM storage.
-* `core/vm/evm.go` `Call/CallCode/DelegateCall/StaticCall`: snapshot, (transfer), run callee, on any error revert to the
-  snapshot, and unless the error is `ErrExecutionReverted` consume all forwarded gas.  A precompile gets
+* `core/vm/evm.go` `Call/CallCode/DelegateCall/StaticCall`: (`CanTransfer` fails ⇒ return at once with the error and ALL
+  the gas handed over — stipend included — and nothing touched), snapshot, (transfer), run callee, on any error revert to
+  the snapshot, and unless the error is `ErrExecutionReverted` consume all forwarded gas.  A precompile gets
   `readonly = (kind ≠ CALL)` — the flag of the *direct* call only.  A precompile returning an error (the fx-core
   dispatchers return the plain Go error next to the packed revert data) is an exceptional failure: all forwarded gas is lost.
 * `core/vm/contracts.go` `runPrecompiledContract`: `RequiredGas` is charged first, running out = `ErrOutOfGas`.
@@ -125,6 +126,7 @@ structure CallHdr (N : Type) where
   stip : Nat             -- call stipend added for the callee (value > 0)
   kind : Kind
   xfer : Option (N → N)  -- value transfer (native bank move), performed after the snapshot
+  funded : N → Bool      -- `CanTransfer`: the caller's balance covers the value (only looked at when `xfer` is there)
   swallow : Bool         -- on failure: continue (true) or bubble up with REVERT (false)
   pOk : Nat              -- caller-side cost after a successful call
   pFail : Nat            -- caller-side cost after a failed call (up to and including the REVERT when bubbling)
@@ -151,6 +153,9 @@ def St.enter (s : St N) (h : CallHdr N) : St N :=
   match h.xfer with
   | some f => s.transfer f
   | none => s
+
+/-- `evm.Call` refuses to start: value attached that the caller cannot pay -/
+def CallHdr.unfunded (h : CallHdr N) (s : N) : Bool := h.xfer.isSome && !h.funded s
 
 /-- the evaluator of a callee program (`exec fuel`), abstracted so that `runPre` is not part of the recursion -/
 abbrev Eval (N : Type) := Bool → Nat → List (Prog N) → St N → Outcome × St N × Nat
@@ -222,13 +227,15 @@ def exec (fuel : Nat) (ro : Bool) (gas : Nat) (p : List (Prog N)) (s : St N) : O
     | .call h body :: rest =>
       if gas < h.callc ∨ (ro = true ∧ h.xfer.isSome = true) then (.fail, s, 0) else
       match resolve h s.journal.length (keepGas h gas)
-          (exec fuel (ro || h.kind == .staticcall) (fwdGas h gas + h.stip) body (s.enter h)) with
+          (if h.unfunded s.native then (.revert, s, fwdGas h gas + h.stip)
+           else exec fuel (ro || h.kind == .staticcall) (fwdGas h gas + h.stip) body (s.enter h)) with
       | .inl x => exec fuel ro x.2 rest x.1
       | .inr r => r
     | .pre h req sh out inner act :: rest =>
       if gas < h.callc ∨ (ro = true ∧ h.xfer.isSome = true) then (.fail, s, 0) else
       match resolve h s.journal.length (keepGas h gas)
-          (runPre (exec fuel) ro (h.kind != .call) (fwdGas h gas + h.stip) req sh out inner act (s.enter h)) with
+          (if h.unfunded s.native then (.revert, s, fwdGas h gas + h.stip)
+           else runPre (exec fuel) ro (h.kind != .call) (fwdGas h gas + h.stip) req sh out inner act (s.enter h)) with
       | .inl x => exec fuel ro x.2 rest x.1
       | .inr r => r
 
@@ -304,13 +311,15 @@ def spec (fuel : Nat) (ro : Bool) (gas : Nat) (p : List (Prog N)) (v : View N) :
     | .call h body :: rest =>
       if gas < h.callc ∨ (ro = true ∧ h.xfer.isSome = true) then (.fail, v, 0) else
       match specResolve h v (keepGas h gas)
-          (spec fuel (ro || h.kind == .staticcall) (fwdGas h gas + h.stip) body (v.enter h)) with
+          (if h.unfunded v.native then (.revert, v, fwdGas h gas + h.stip)
+           else spec fuel (ro || h.kind == .staticcall) (fwdGas h gas + h.stip) body (v.enter h)) with
       | .inl x => spec fuel ro x.2 rest x.1
       | .inr r => r
     | .pre h req sh out inner act :: rest =>
       if gas < h.callc ∨ (ro = true ∧ h.xfer.isSome = true) then (.fail, v, 0) else
       match specResolve h v (keepGas h gas)
-          (specPre (spec fuel) ro (h.kind != .call) (fwdGas h gas + h.stip) req sh out inner act (v.enter h)) with
+          (if h.unfunded v.native then (.revert, v, fwdGas h gas + h.stip)
+           else specPre (spec fuel) ro (h.kind != .call) (fwdGas h gas + h.stip) req sh out inner act (v.enter h)) with
       | .inl x => spec fuel ro x.2 rest x.1
       | .inr r => r
 
